@@ -121,7 +121,9 @@ def apply(base, op):
 def run_cli(args, cwd, use_script=False, timeout=900):
     env = dict(os.environ)
     env["PYTHONPATH"] = f"{REPO}:" + env.get("PYTHONPATH", "")
-    if use_script:
+    if use_script == "module":
+        cmd = [sys.executable, "-m", "ghedesigner.manager"] + args
+    elif use_script:
         cmd = ["/venv/bin/ghedesigner"] + args
     else:
         cmd = [sys.executable, "-c", "import sys; from ghedesigner.manager import run_manager_from_cli; sys.exit(run_manager_from_cli())"] + args
@@ -166,7 +168,7 @@ def run_shard(spec):
             case = {"base": bname, "corruption": cname, "mode": mode, "expected_valid": valid, "schema_errors": errs[:2]}
             outdir = Path(workdir) / f"out_{k}"
             if mode == "validate-only":
-                rc, err, _ = run_cli(["--validate-only", str(fpath)], workdir, use_script=(k % 5 == 0))
+                rc, err, _ = run_cli(["--validate-only", str(fpath)], workdir, use_script=("module" if k % 5 == 1 else (k % 5 == 0)))
             elif mode == "plain":
                 rc, err, _ = run_cli([str(fpath), str(outdir)], workdir)
             else:
@@ -270,7 +272,7 @@ def check(tier, seed):
     results = run_pool("vf.props.C18", specs, timeout=7200)
     rep = Report(PROP)
     rep.rule = (
-        "invocations of the real CLI in subprocesses: every single-field corruption (missing key, wrong type, negative, unknown enum, out of "
+        "invocations of the real CLI in subprocesses (the `ghedesigner` console script, `python -m ghedesigner.manager`, and the click command called from -c): every single-field corruption (missing key, wrong type, negative, unknown enum, out of "
         "range, missing section, bad loads) and every letter-case variant of the five documented names of 12 small demo-style inputs "
         "(6 methods x single-U/coaxial) [quick: a seeded sample of 14 per shard; thorough: all], run as --validate-only / plain / plain without "
         "output directory; plus full valid runs with output-file inventory, --convert IDF on the produced summary, --convert XYZ, -c idf and "
